@@ -573,6 +573,9 @@ func (o *Origins) callEx(c *ssa.Call, idx int) *Ex {
 	if e := o.newHelperResult(c, d, idx); e != nil {
 		return e
 	}
+	if e := o.boundFuncParamResult(c, d, idx); e != nil {
+		return e
+	}
 	if d.Name == "strings.(*Builder).String" || d.Name == "bytes.(*Buffer).String" || d.Name == "bytes.(*Buffer).Bytes" {
 		if e := o.builderContent(c); e != nil {
 			return e
@@ -626,6 +629,59 @@ func (o *Origins) newHelperResult(c *ssa.Call, d *CallDesc, idx int) *Ex {
 			return nil
 		}
 		alts = append(alts, oc.Of(r.Results[i]))
+	}
+	return mkPhi(alts)
+}
+
+// boundFuncParamResult: inside a helper read in the context of one of its calls, a call of a function-valued
+// parameter (`keyOf(item)` in `hasDuplicate(items, keyOf)`) is a call of the function literal the caller passed;
+// its non-error result is what that literal returns, with the literal's parameters bound to the arguments here.
+func (o *Origins) boundFuncParamResult(c *ssa.Call, d *CallDesc, idx int) *Ex {
+	if d.Static != nil || d.Iface != nil || o.caller == nil || o.call == nil || o.depth >= 5 {
+		return nil
+	}
+	prm, ok := c.Call.Value.(*ssa.Parameter)
+	if !ok || o.call.Common().IsInvoke() {
+		return nil
+	}
+	var fn *ssa.Function
+	for i, p := range o.Fn.Params {
+		if p != prm || i >= len(o.call.Common().Args) {
+			continue
+		}
+		switch a := o.call.Common().Args[i].(type) {
+		case *ssa.MakeClosure:
+			fn, _ = a.Fn.(*ssa.Function)
+		case *ssa.Function:
+			fn = a
+		}
+	}
+	if fn == nil || fn.Blocks == nil || o.p.expanding[fn] {
+		return nil
+	}
+	res := fn.Signature.Results()
+	i := idx
+	if res.Len() == 1 {
+		i = 0
+	}
+	if i < 0 || i >= res.Len() || IsErrorType(res.At(i).Type()) {
+		return nil
+	}
+	o.p.expanding[fn] = true
+	defer delete(o.p.expanding, fn)
+	oc := o.Enter(fn, c)
+	if fn.Parent() != nil && fn.Parent() == o.caller.Fn {
+		oc.outer = o.caller
+	}
+	var alts []*Ex
+	for _, r := range Returns(fn) {
+		if i >= len(r.Results) {
+			return nil
+		}
+		alts = append(alts, oc.Of(r.Results[i]))
+	}
+	if len(alts) == 0 {
+		return nil
 	}
 	return mkPhi(alts)
 }
